@@ -48,7 +48,23 @@ def unions(maxlen):
     for m in P:
         for sp in ("typing.Optional", "typing.Union", "|", "None|"):
             out.append(T.Optional(m, sp))
+    # members related by inheritance (bool is an int; DCwide extends DC with defaults for every field) and a bytes member
+    # (the text member before it rejects undecodable bytes with a UnicodeDecodeError): every pair and triple over the small pool holding one of them
+    S, X = small_pool()
+    for n in (2, 3):
+        for ms in itertools.permutations(S + X, n):
+            if not any(m in X for m in ms):
+                continue
+            for none_at in [None] + list(range(n + 1)):
+                out.append(T.Union("typing.Union", list(ms), none_at=none_at))
     return out
+
+
+@functools.lru_cache(maxsize=None)
+def small_pool():
+    L = T.LEAVES
+    wide = T.LEAVES.get("DCwide")
+    return [L["int"], L["str"], L["float"], L["DC"]], [L["bool"], T.BYTES_LEAVES["bytes"]] + ([wide] if wide is not None else [])
 
 
 @functools.lru_cache(maxsize=None)
@@ -72,7 +88,7 @@ def units(tier):
 def meta(tier):
     return {
         "rule": f"every ordered member tuple of length 2..{MAXLEN[tier]} over the 12-type pool (int, str, float, Decimal, date, datetime, UUID, list[int], dict[str,int], DC, EStr, Literal['a',1]), "
-        "None absent or at every position, typing.Union (and X|Y for pairs), all Optional spellings of each member, plus both member orders inside one annotation; "
+        "None absent or at every position, typing.Union (and X|Y for pairs), all Optional spellings of each member, plus both member orders inside one annotation, plus every pair and triple over {int, str, float, DC, bool, bytes} holding bool or bytes (members related by inheritance; rejection by UnicodeDecodeError); "
         "x every input of X0 (one-shot iterators excluded: trying a member consumes them) + wire renderings of the members' values (unmarshal) and every member value + foreign objects (marshal); "
         "oracle = reference union computed from the independently built member routines in declared order (None member first for x is None; any Exception = rejection; all reject -> ValueError); "
         "non-trivial = some member accepts; distinct by (union, input, outcome)",
@@ -86,7 +102,7 @@ def input_pool(ns):
     pl = list(inputs.x0(ns))
     pl.append(("prim:huge-int", lambda: 10**400))
     pl.append(("prim:huge-float-text", lambda: "1e400"))
-    for m in pool():
+    for m in pool() + small_pool()[1]:
         for vi, v in enumerate(m.values(ns)[:NW]):
             w = m.wire(ns, v)
             for rn, rv in inputs.renderings(w):
@@ -96,7 +112,7 @@ def input_pool(ns):
 
 def value_pool(ns):
     pl = []
-    for m in pool():
+    for m in pool() + small_pool()[1]:
         for vi in range(min(4, len(m.values(ns)))):
             pl.append((f"val:{m.sig()}#{vi}", (lambda m, vi: lambda: m.values(ns)[vi])(m, vi)))
     pl.append(("val:None", lambda: None))
